@@ -34,6 +34,15 @@ def signable_batch(ck: Check, n: int, want_modes=(False, True)):
             case = Case("vsignable", [c["env"], c["auth"], t, gv], tag="gpg" if gpg else "raw", group=g,
                         meta={"states": c["states"], "count": cnt, "thr": repr(t)})
             out.append((case, envgen.expected_signable(c["env"], c["auth"], t, gpg), c))
+        if cnt and rng.random() < 0.3:
+            # right after it: the same signatures on a payload that Python's == cannot tell from the signed one (1 / 1.0 / True ...) but that
+            # serializes differently — a related input on which nothing of the previous call may be reused
+            twin_signed = envgen.retyped(c["env"]["signed"])
+            if gen.oracle_bytes(twin_signed) != gen.oracle_bytes(c["env"]["signed"]):
+                twin = {"env": {"signatures": c["env"]["signatures"], "signed": twin_signed}, "auth": c["auth"], "states": c["states"]}
+                cnt2 = len(envgen.counting_keys(twin["env"], twin["auth"], gpg))
+                case = Case("vsignable", [twin["env"], twin["auth"], 1, gpg], tag="gpg" if gpg else "raw", group=g, meta={"states": {"twin": "retyped-payload"}, "count": cnt2, "thr": "1"})
+                out.append((case, envgen.expected_signable(twin["env"], twin["auth"], 1, gpg), twin))
     return out
 
 
